@@ -38,6 +38,38 @@ import (
 
 var errInjected = errors.New("verif: injected I/O error")
 
+// errCrash is the panic value of a simulated process crash.
+var errCrash = errors.New("verif: simulated crash of the package manager")
+
+// recCache is the package cache the reconcilers use: the real FsPackageCache,
+// with the result of every Store recorded.
+type recCache struct {
+	xpkg.PackageCache
+	mu     sync.Mutex
+	stores []storeResult
+}
+
+type storeResult struct {
+	ID  string
+	Err error
+}
+
+func (c *recCache) Store(id string, rc io.ReadCloser) error {
+	err := c.PackageCache.Store(id, rc)
+	c.mu.Lock()
+	c.stores = append(c.stores, storeResult{ID: id, Err: err})
+	c.mu.Unlock()
+	return err
+}
+
+func (c *recCache) take() []storeResult {
+	c.mu.Lock()
+	defer c.mu.Unlock()
+	s := c.stores
+	c.stores = nil
+	return s
+}
+
 const (
 	cacheDir  = "/cache"
 	namespace = "crossplane-system"
@@ -195,9 +227,14 @@ func (c *cutReader) Close() error { return c.rc.Close() }
 
 type fsPlan struct {
 	CreateFails bool
-	WriteFailAt int // -1: none; the file accepts this many bytes, then Write fails
-	ReadFailAt  int // -1: none; reads deliver this many bytes, then fail
-	CloseFails  bool
+	// RemoveFails: removing a cache file fails (the reconciler's cleanup is
+	// best effort: the error is only logged). RemoveCrashes: the process dies
+	// at that point instead (panic with errCrash, recovered by env.reconcile).
+	RemoveFails   bool
+	RemoveCrashes bool
+	WriteFailAt   int // -1: none; the file accepts this many bytes, then Write fails
+	ReadFailAt    int // -1: none; reads deliver this many bytes, then fail
+	CloseFails    bool
 }
 
 func noFsFault() fsPlan { return fsPlan{WriteFailAt: -1, ReadFailAt: -1} }
@@ -230,6 +267,19 @@ func (f *faultFs) Create(name string) (afero.File, error) {
 		return nil, err
 	}
 	return &faultFile{File: file, fs: f, writeLeft: p.WriteFailAt, readLeft: -1, closeFails: p.CloseFails}, nil
+}
+
+func (f *faultFs) Remove(name string) error {
+	f.mu.Lock()
+	p := f.plan
+	f.mu.Unlock()
+	if p.RemoveCrashes {
+		panic(errCrash)
+	}
+	if p.RemoveFails {
+		return errInjected
+	}
+	return f.Fs.Remove(name)
 }
 
 func (f *faultFs) Open(name string) (afero.File, error) {
@@ -567,6 +617,7 @@ type env struct {
 	sim     *verifsim.Sim
 	fs      *faultFs
 	cache   *xpkg.FsPackageCache
+	rcache  *recCache
 	fetcher *fetcher
 	est     *recEstablisher
 	deps    *recDeps
@@ -604,6 +655,7 @@ func newEnv(verification bool) *env {
 		e.flags.Enable(features.EnableAlphaSignatureVerification)
 	}
 	e.cache = xpkg.NewFsPackageCache(cacheDir, e.fs)
+	e.rcache = &recCache{PackageCache: e.cache}
 	_ = e.fs.Fs.MkdirAll(cacheDir, 0o755)
 	for _, typ := range pkgTypes {
 		typ := typ
@@ -611,7 +663,7 @@ func newEnv(verification bool) *env {
 		e.hooks[typ] = c
 		mgr := &fakeManager{c: c}
 		e.recs[typ] = revision.NewReconciler(mgr,
-			revision.WithCache(e.cache),
+			revision.WithCache(e.rcache),
 			revision.WithDependencyManager(e.deps),
 			revision.WithEstablisher(e.est),
 			revision.WithNewPackageRevisionFn(func() v1.PackageRevision { return newRev(typ) }),
